@@ -69,6 +69,16 @@ CHECKS["C16"] = dict(
     note="Trusted: TLC, renderer, TraceListener selection events. Text keys restricted to [a-z0-9]* (collation = code point); case-order/lang not exercised.",
     technique="TLA+ definition of sorting model-checked for its facets; trace validation of observed processing order and positions")
 
+CHECKS["C17"] = dict(
+    category="model_checking", design_ref="DESIGN.md §5 C17",
+    text="Numbering.tla defines the number list of XSLT 7.7 (single / multiple / any, count and from patterns or the default count) and the 7.7.1 conversion "
+         "(tokens 1, 01, a, A, i, I, prefix/separators/suffix, token reuse). TLC checks the conversion laws for 1..5000; one xsl:number instruction instance then numbers "
+         "the nodes of seeded documents in document, reverse and shuffled visiting order (so its counter cache is exercised) and every produced string must equal "
+         "FormatList(NumberList(...)), whatever was numbered before.",
+    note="Trusted: TLC, renderer, result-tree recorder. Cases where `from` matches nothing are not judged (undefined in XSLT 1.0); grouping separators and non-ASCII tokens not covered; "
+         "deviations of the from handling are attributed per level (known findings).",
+    technique="TLA+ definition of xsl:number evaluated by TLC; trace validation over permuted visiting orders; TLC-checked conversion laws")
+
 NOT_YET = {
 }
 
